@@ -300,10 +300,89 @@ func (fr *Frame) mergeStates(inc []inEdge) *State {
 			st.env[k] = envEntry{val: u.define("e", mergeTerm(func(s *State) Term { return s.env[k].val })), typ: v.typ, isAddr: v.isAddr}
 		}
 	}
-	// defers must agree
+	// defers: stacks that differ (defer inside a conditional) are merged into guarded entries
+	differ := false
 	for _, e := range inc {
 		if !sameDefers(e.st.defers, st.defers) {
-			u.note("defer stacks differ at merge in %s (unsupported; deferred calls on some paths are dropped)", fr.key)
+			differ = true
+		}
+	}
+	if differ {
+		ok := true
+		top := len(st.defers) - 1
+		for _, e := range inc {
+			if len(e.st.defers) != len(st.defers) {
+				ok = false
+				break
+			}
+			for lvl := 0; lvl < top; lvl++ {
+				if !sameDefers([][]deferred{e.st.defers[lvl]}, [][]deferred{st.defers[lvl]}) {
+					ok = false
+				}
+			}
+		}
+		if ok {
+			// union of the top-level entries in program order (by site position); an entry is active on the paths that have it
+			var sites []ssa.Instruction
+			seen := map[ssa.Instruction]bool{}
+			for _, e := range inc {
+				for _, d := range e.st.defers[top] {
+					if !seen[d.site] {
+						seen[d.site] = true
+						sites = append(sites, d.site)
+					}
+				}
+			}
+			sort.SliceStable(sites, func(i, j int) bool { return sites[i].Pos() < sites[j].Pos() })
+			var merged []deferred
+			for _, s := range sites {
+				var act []Term
+				var proto *deferred
+				args := map[int][]Term{}
+				for i, e := range inc {
+					for k := range e.st.defers[top] {
+						d := e.st.defers[top][k]
+						if d.site == s {
+							a := d.active
+							if a.S == "" {
+								a = True
+							}
+							act = append(act, And(e.st.pc, a))
+							if proto == nil {
+								dd := d
+								proto = &dd
+							}
+							args[i] = d.args
+						}
+					}
+				}
+				if proto == nil {
+					continue
+				}
+				// arguments may differ per path: merge them by ite
+				for ai := range proto.args {
+					var t Term
+					first := true
+					for i := len(inc) - 1; i >= 0; i-- {
+						as, has := args[i]
+						if !has {
+							continue
+						}
+						if first {
+							t = as[ai]
+							first = false
+						} else {
+							t = Ite(inc[i].st.pc, as[ai], t)
+						}
+					}
+					proto.args[ai] = u.define("darg", t)
+				}
+				proto.active = u.define("dact", Or(act...))
+				merged = append(merged, *proto)
+			}
+			st.defers[top] = merged
+		} else {
+			u.note("defer stacks differ at merge in %s (unsupported shape)", fr.key)
 			u.bindErrors = append(u.bindErrors, "defer stacks differ at a merge point in "+fr.key)
 		}
 	}
